@@ -81,3 +81,10 @@ Theorem C05_schedule_irrelevant : forall e p sched1 sched2 ss i s,
   proj ev i (irun sock op ev (step e p) ss sched1) = proj ev i (irun sock op ev (step e p) ss sched2).
 Proof. intros e p. exact (schedule_irrelevant sock op ev (step e p)). Qed.
 Print Assumptions C05_schedule_irrelevant.
+
+(* the state a connection is left in (parsed so far, answered or not, closed or not) is the one it would reach alone too *)
+Theorem C05_connection_state_independent : forall e p sched ss i s,
+  nth_error ss i = Some s ->
+  nth_error (istates sock op ev (step e p) ss sched) i = Some (final sock op ev (step e p) s (ops_of op i sched)).
+Proof. intros e p. exact (interleaving_state_independent sock op ev (step e p)). Qed.
+Print Assumptions C05_connection_state_independent.
